@@ -148,7 +148,7 @@ pub fn observe(ctx: &Ctx, st: &mut Stats, job: &Job) {
                 Some(p) => p,
                 None => continue,
             };
-            let (x, y, raw): (usize, usize, u8) = match (x.parse(), y.parse(), raw.parse()) {
+            let (x, y, raw): (usize, usize, u8) = match (x.trim().parse(), y.trim().parse(), raw.trim().parse()) {
                 (Ok(a), Ok(b), Ok(c)) => (a, b, c),
                 _ => continue,
             };
@@ -173,6 +173,9 @@ pub fn observe(ctx: &Ctx, st: &mut Stats, job: &Job) {
         if seen != dark {
             // how many sub-paths a layer has is C12's claim, not C15's: recorded, not judged here
             st.count("callback_count_differs_from_dark_modules", 1);
+            if std::env::var_os("VERIF_DEBUG_C15").is_some() {
+                eprintln!("c15 spy: layers arrangement {layers}, seen {seen}, expected {dark}, margin {margin}, size {n}");
+            }
         }
         st.count("callback_modules_compared", seen);
     }
